@@ -272,15 +272,18 @@ Definition outline_ok (taken : list pred) (o0 o : proof_outline) : Prop :=
     def_chain taken (map an_formula fd) /\ def_chain taken (map an_formula bd) /\
     Forall (fun g => lemma_sound g /\ lemma_roles g) fl /\ Forall (fun g => lemma_sound g /\ lemma_roles g) bl.
 
-Lemma outline_ok_lemma taken o0 o' o g (df db : bool) :
+Lemma outline_ok_lemma taken taken' o0 o' o g (df db : bool) :
+  incl taken taken' ->
   forward_lemmas o' = forward_lemmas o0 ++ (if df then [g] else []) ->
   backward_lemmas o' = backward_lemmas o0 ++ (if db then [g] else []) ->
   forward_definitions o' = forward_definitions o0 -> backward_definitions o' = backward_definitions o0 ->
-  lemma_sound g /\ lemma_roles g -> outline_ok taken o' o -> outline_ok taken o0 o.
+  lemma_sound g /\ lemma_roles g -> outline_ok taken' o' o -> outline_ok taken o0 o.
 Proof.
-  intros E1 E2 E3 E4 Hg [fd [bd [fl [bl [F1 [F2 [F3 [F4 [C1 [C2 [L1 L2]]]]]]]]]]].
+  intros Hincl E1 E2 E3 E4 Hg [fd [bd [fl [bl [F1 [F2 [F3 [F4 [C1 [C2 [L1 L2]]]]]]]]]]].
   exists fd, bd, ((if df then [g] else []) ++ fl), ((if db then [g] else []) ++ bl).
   rewrite F1, F2, F3, F4, E1, E2, E3, E4, <- !app_assoc. repeat split; auto.
+  - eapply dc_weaken; eauto.
+  - eapply dc_weaken; eauto.
   - destruct df; cbn; [constructor; auto|auto].
   - destruct db; cbn; [constructor; auto|auto].
 Qed.
@@ -315,7 +318,7 @@ Proof.
       | Err e => Err e
       | Panic => Panic
       | Ok g =>
-          from_specification_loop l taken m
+          from_specification_loop l (iset_extend pred_dec taken (predicates (an_formula anf))) m
             match an_dir anf with
             | DUniversal => mkoutline (forward_lemmas o0 ++ [g]) (backward_lemmas o0 ++ [g]) (forward_definitions o0) (backward_definitions o0)
             | DForward => mkoutline (forward_lemmas o0 ++ [g]) (backward_lemmas o0) (forward_definitions o0) (backward_definitions o0)
@@ -324,10 +327,12 @@ Proof.
       end = Ok (o, ws') -> outline_ok taken o0 o).
     { intros closed. destruct (general_lemma_try_from closed) as [g|e|] eqn:Eg; try discriminate.
       intros Hrec. apply IH in Hrec. pose proof (try_from_sound closed g Eg) as Hg.
+      assert (Hincl : incl taken (iset_extend pred_dec taken (predicates (an_formula anf)))).
+      { intros x Hx. apply (in_iset_extend pred_dec). auto. }
       destruct (an_dir anf).
-      - apply (outline_ok_lemma taken o0 _ o g true true) in Hrec; auto; cbn; rewrite ?app_nil_r; reflexivity.
-      - apply (outline_ok_lemma taken o0 _ o g true false) in Hrec; auto; cbn; rewrite ?app_nil_r; reflexivity.
-      - apply (outline_ok_lemma taken o0 _ o g false true) in Hrec; auto; cbn; rewrite ?app_nil_r; reflexivity. }
+      - apply (outline_ok_lemma taken _ o0 _ o g true true Hincl) in Hrec; auto; cbn; rewrite ?app_nil_r; reflexivity.
+      - apply (outline_ok_lemma taken _ o0 _ o g true false Hincl) in Hrec; auto; cbn; rewrite ?app_nil_r; reflexivity.
+      - apply (outline_ok_lemma taken _ o0 _ o g false true Hincl) in Hrec; auto; cbn; rewrite ?app_nil_r; reflexivity. }
     destruct (an_role anf) eqn:Erole; try discriminate.
     + apply Hlemma.
     + destruct (definition (an_formula anf) taken) as [[p w]|e|] eqn:Ed; try discriminate.
@@ -350,7 +355,7 @@ Proof.
 Qed.
 End Lemmas.
 
-(* ================= freshness of defined predicates, and observation F12 ================= *)
+(* ================= freshness of defined predicates (finding F12, repaired) ================= *)
 Definition defined_pred (f : formula) : option pred :=
   match f with
   | FQ QForall _ (FBin CIff (FAtomic (AAtom q ts)) _) => Some (mkpred q (List.length ts))
@@ -371,8 +376,10 @@ Fixpoint strictly_fresh (m : placeholders) (l : specification) (seen : list pred
       /\ strictly_fresh m l' (seen ++ predicates (an_formula a))
   end.
 
-(* the complement of the known class F12: no definition defines a predicate that occurs in an
-   EARLIER LEMMA ([lp] collects the predicates of the lemmas seen so far) *)
+(* the former known class F12 (a definition that defines a predicate occurring in an EARLIER LEMMA;
+   [lp] collects the predicates of the lemmas seen so far).  Before the repair this was the
+   hypothesis of the freshness theorem; it is kept only to state the regression example
+   (Properties/C13.v: the old witness is outside [F12_free] and is now REFUSED). *)
 Fixpoint F12_free (m : placeholders) (l : specification) (lp : list pred) : Prop :=
   match l with
   | [] => True
@@ -384,46 +391,82 @@ Fixpoint F12_free (m : placeholders) (l : specification) (lp : list pred) : Prop
       end
   end.
 
-Theorem accepted_strictly_fresh m : forall l taken o0 ws o ws' seen lp,
+(* every accepted outline is strictly fresh: [taken] now grows by the predicates of every accepted
+   entry, so [seen <= taken] is an invariant of the loop *)
+Theorem accepted_strictly_fresh m : forall l taken o0 ws o ws' seen,
   from_specification_loop l taken m o0 ws = Ok (o, ws') ->
-  F12_free m l lp -> (forall q, In q seen -> In q taken \/ In q lp) ->
+  (forall q, In q seen -> In q taken) ->
   strictly_fresh m l seen.
 Proof.
-  induction l as [|anf0 l IH]; intros taken o0 ws o ws' seen lp; cbn [from_specification_loop strictly_fresh F12_free]; [auto|].
+  induction l as [|anf0 l IH]; intros taken o0 ws o ws' seen; cbn [from_specification_loop strictly_fresh]; [auto|].
   set (anf := rp_annot m anf0).
   assert (Hlemma : forall closed,
     match general_lemma_try_from closed with
     | Err e => Err e
     | Panic => Panic
     | Ok g =>
-        from_specification_loop l taken m
+        from_specification_loop l (iset_extend pred_dec taken (predicates (an_formula anf))) m
           match an_dir anf with
           | DUniversal => mkoutline (forward_lemmas o0 ++ [g]) (backward_lemmas o0 ++ [g]) (forward_definitions o0) (backward_definitions o0)
           | DForward => mkoutline (forward_lemmas o0 ++ [g]) (backward_lemmas o0) (forward_definitions o0) (backward_definitions o0)
           | DBackward => mkoutline (forward_lemmas o0) (backward_lemmas o0 ++ [g]) (forward_definitions o0) (backward_definitions o0)
           end ws
     end = Ok (o, ws') ->
-    F12_free m l (lp ++ predicates (an_formula anf)) -> (forall q, In q seen -> In q taken \/ In q lp) ->
+    (forall q, In q seen -> In q taken) ->
     True /\ strictly_fresh m l (seen ++ predicates (an_formula anf))).
   { intros closed. destruct (general_lemma_try_from closed) as [g|e|]; try discriminate.
-    intros Hrec Hfree Hseen. split; [exact I|].
-    eapply IH; [exact Hrec|exact Hfree|].
-    intros q Hq. apply in_app_iff in Hq. destruct Hq as [Hq|Hq].
-    - destruct (Hseen q Hq); [left; assumption|right; apply in_app_iff; auto].
-    - right; apply in_app_iff; auto. }
+    intros Hrec Hseen. split; [exact I|].
+    eapply IH; [exact Hrec|].
+    intros q Hq. apply (in_iset_extend pred_dec). apply in_app_iff in Hq. destruct Hq as [Hq|Hq]; auto. }
   destruct (an_role anf) eqn:Erole; try discriminate.
   - apply Hlemma.
   - destruct (definition (an_formula anf) taken) as [[p w]|e|] eqn:Ed; try discriminate.
-    intros Hrec [Hfree Hfree'] Hseen.
+    intros Hrec Hseen.
     destruct (definition_shape _ _ _ _ Ed) as [vs [q [ts [rhs [tv [Ef [Ep [_ [_ [_ [Hfresh _]]]]]]]]]]].
     split.
     + intros p' Hp'. rewrite Ef in Hp'. cbn in Hp'. injection Hp' as <-. rewrite <- Ep.
-      intros Hin. destruct (Hseen p Hin) as [Ht|Hl]; [exact (Hfresh Ht)|]. apply (Hfree p); [|exact Hl].
-      rewrite Ef. cbn. rewrite Ep. reflexivity.
-    + eapply IH; [exact Hrec|exact Hfree'|].
-      intros r Hr. apply in_app_iff in Hr. destruct Hr as [Hr|Hr].
-      * destruct (Hseen r Hr) as [Ht|Hl]; [left; apply (in_iset_insert pred_dec); auto|right; exact Hl].
-      * left. apply (in_iset_insert pred_dec).
-        destruct (definition_predicates _ _ _ _ Ed r Hr) as [->|Ht]; auto.
+      intros Hin. exact (Hfresh (Hseen p Hin)).
+    + eapply IH; [exact Hrec|].
+      intros r Hr. apply (in_iset_insert pred_dec). apply in_app_iff in Hr. destruct Hr as [Hr|Hr].
+      * left. apply Hseen, Hr.
+      * destruct (definition_predicates _ _ _ _ Ed r Hr) as [->|Ht]; auto.
+  - apply Hlemma.
+Qed.
+
+(* in particular: an accepted outline is outside the former class F12 *)
+Theorem accepted_F12_free m : forall l taken o0 ws o ws' lp,
+  from_specification_loop l taken m o0 ws = Ok (o, ws') ->
+  (forall q, In q lp -> In q taken) ->
+  F12_free m l lp.
+Proof.
+  induction l as [|anf0 l IH]; intros taken o0 ws o ws' lp; cbn [from_specification_loop F12_free]; [auto|].
+  set (anf := rp_annot m anf0).
+  assert (Hlemma : forall closed,
+    match general_lemma_try_from closed with
+    | Err e => Err e
+    | Panic => Panic
+    | Ok g =>
+        from_specification_loop l (iset_extend pred_dec taken (predicates (an_formula anf))) m
+          match an_dir anf with
+          | DUniversal => mkoutline (forward_lemmas o0 ++ [g]) (backward_lemmas o0 ++ [g]) (forward_definitions o0) (backward_definitions o0)
+          | DForward => mkoutline (forward_lemmas o0 ++ [g]) (backward_lemmas o0) (forward_definitions o0) (backward_definitions o0)
+          | DBackward => mkoutline (forward_lemmas o0) (backward_lemmas o0 ++ [g]) (forward_definitions o0) (backward_definitions o0)
+          end ws
+    end = Ok (o, ws') ->
+    (forall q, In q lp -> In q taken) ->
+    F12_free m l (lp ++ predicates (an_formula anf))).
+  { intros closed. destruct (general_lemma_try_from closed) as [g|e|]; try discriminate.
+    intros Hrec Hlp. eapply IH; [exact Hrec|].
+    intros q Hq. apply (in_iset_extend pred_dec). apply in_app_iff in Hq. destruct Hq as [Hq|Hq]; auto. }
+  destruct (an_role anf) eqn:Erole; try discriminate.
+  - apply Hlemma.
+  - destruct (definition (an_formula anf) taken) as [[p w]|e|] eqn:Ed; try discriminate.
+    intros Hrec Hlp.
+    destruct (definition_shape _ _ _ _ Ed) as [vs [q [ts [rhs [tv [Ef [Ep [_ [_ [_ [Hfresh _]]]]]]]]]]].
+    split.
+    + intros p' Hp'. rewrite Ef in Hp'. cbn in Hp'. injection Hp' as <-. rewrite <- Ep.
+      intros Hin. exact (Hfresh (Hlp p Hin)).
+    + eapply IH; [exact Hrec|].
+      intros r Hr. apply (in_iset_insert pred_dec). left. apply Hlp, Hr.
   - apply Hlemma.
 Qed.
